@@ -256,9 +256,10 @@ def make_run(nreq_threads, nreq, bg, stop_at_stall=False, timeout=30):
                 def poller():
                     while not stop_poller[0]:
                         try:
-                            conn.poll_all(0.1)
+                            conn.poll_all(0)            # serve whatever has arrived, without waiting ...
                         except EOFError:
                             return
+                        S.sim_time.sleep(0.05)          # ... and look again a little later (no busy loop)
                 pol = S.SimThread(target=poller, name="poller")
                 pol.start()
             ts = []
